@@ -25,7 +25,7 @@ Definition persistent_topic (t : string) : bool :=
 
 (* ---- facts about a history of events ---- *)
 (* body / object of the most recent update of topic t *)
-Fixpoint last_text (t : string) (h : list event) : option string :=
+Fixpoint last_text (t : string) (h : list event) : option value :=
   match h with
   | [] => None
   | e :: rest =>
@@ -37,7 +37,7 @@ Fixpoint last_text (t : string) (h : list event) : option string :=
                 end
       end
   end.
-Fixpoint last_obj (t : string) (h : list event) : option string :=
+Fixpoint last_obj (t : string) (h : list event) : option value :=
   match h with
   | [] => None
   | e :: rest =>
@@ -59,13 +59,13 @@ Fixpoint updated_tags (h : list event) : list string :=
 (* ---- part 1: the answer to SENDALL ---- *)
 (* "receives, for every status topic ever published in this run, exactly the most recent message of that
     topic": S is the set { (t, last message of t) | t a status topic updated at least once } *)
-Definition sendall_spec (before : list event) (S : list (string * string)) : Prop :=
+Definition sendall_spec (before : list event) (S : list (string * value)) : Prop :=
   NoDup (map fst S) /\
   forall t b, In (t, b) S <-> (status_topic t = true /\ last_text t before = Some b).
 
-Definition opt_str_eqb (a b : option string) : bool :=
+Definition opt_str_eqb (a b : option value) : bool :=
   match a, b with
-  | Some x, Some y => String.eqb x y
+  | Some x, Some y => x =? y
   | None, None => true
   | _, _ => false
   end.
@@ -74,7 +74,7 @@ Fixpoint nodupb (l : list string) : bool :=
   | [] => true
   | x :: r => negb (mem_str x r) && nodupb r
   end.
-Definition sendall_check (before : list event) (S : list (string * string)) : bool :=
+Definition sendall_check (before : list event) (S : list (string * value)) : bool :=
   nodupb (map fst S)
   && forallb (fun tb => status_topic (fst tb) && opt_str_eqb (last_text (fst tb) before) (Some (snd tb))) S
   && forallb (fun t => negb (status_topic t) || mem_str t (map fst S)) (updated_tags before).
@@ -89,6 +89,27 @@ Definition saved_check (before : list event) (cfg : config) : bool :=
                     || opt_str_eqb (slookup (to_lower t) cfg) (last_obj t before))
           (updated_tags before).
 
+(* restored = what a dastard started after the save reports as restored, by configuration key; demanded
+   only when the last thing that happened to the configuration was a save (no update since) *)
+Definition restorable_topic (t : string) : bool := mem_str (to_lower t) restorable_keys.
+Fixpoint saved_is_current_rev (r : list event) : bool :=
+  match r with
+  | [] => false
+  | SaveTick _ faults :: _ => forallb negb faults
+  | Update _ _ _ :: _ => false
+  | _ :: r' => saved_is_current_rev r'
+  end.
+Definition saved_is_current (before : list event) : bool := saved_is_current_rev (rev before).
+Definition restored_spec (before : list event) (l : list (string * value)) : Prop :=
+  saved_is_current before = true ->
+  forall t o, persistent_topic t = true -> restorable_topic t = true -> last_obj t before = Some o ->
+              slookup (to_lower t) l = Some o.
+Definition restored_check (before : list event) (l : list (string * value)) : bool :=
+  negb (saved_is_current before)
+  || forallb (fun t => negb (persistent_topic t && restorable_topic t)
+                       || opt_str_eqb (slookup (to_lower t) l) (last_obj t before))
+             (updated_tags before).
+
 (* ---- part 3: a kill between any two file-system operations of a save ---- *)
 (* reads = what start-up reads from the directory as it is before the save (head) and after each completed
    operation; written = the content the save writes.  Never missing (None), and always the complete old or
@@ -97,7 +118,7 @@ Definition crash_spec (reads : list (option config)) (written : config) : Prop :
   exists old, hd_error reads = Some (Some old) /\
               forall r, In r reads -> r = Some old \/ r = Some written.
 
-Definition entry_eqb (a b : entry) : bool := String.eqb (fst a) (fst b) && String.eqb (snd a) (snd b).
+Definition entry_eqb (a b : entry) : bool := String.eqb (fst a) (fst b) && (snd a =? snd b).
 Definition config_eqb : config -> config -> bool := list_eqb entry_eqb.
 Definition crash_check (reads : list (option config)) (written : config) : bool :=
   match reads with
@@ -140,6 +161,7 @@ Definition check_one (before : list event) (e : event) (o : out) : bool :=
           | _ => false
           end
       end
+  | Restart, Restored l => restored_check before l
   | Update _ _ _, Published _ => true
   | Wait, Waited _ => true
   | _, _ => false
@@ -157,7 +179,7 @@ Definition C16_check (h : list (event * out)) : bool := check_from [] h.
 (* a JSON text is never empty *)
 Definition wf_event (e : event) : Prop :=
   match e with
-  | Update _ _ text => text <> EmptyString
+  | Update _ _ text => text <> 0
   | _ => True
   end.
 (* the object determines the text and vice versa: text = json.Marshal(object) *)
